@@ -169,7 +169,9 @@ def trace_inputs(out, function, prop=None):
         m = re.match(r"\s+([A-Za-z_]\w*(?:\[\d+l?\])?)=.*\(([01 ]+)\)\s*$", ln)
         if m:
             name = m.group(1).replace("l]", "]")
-            vals[name] = int(m.group(2).replace(" ", ""), 2)
+            # first assignment wins: harness inputs are assigned once, before any call; later lines with the same
+            # name are callee parameters that CBMC attributes to the calling function
+            vals.setdefault(name, int(m.group(2).replace(" ", ""), 2))
     return vals
 
 
